@@ -1571,6 +1571,9 @@ class LangServer:
             os.path.isfile(os.path.join(self.root_path, f)) for f in default_conf_files
         ]
         if not any(present_conf_files):
+            # A file explicitly requested with -c/--config must exist
+            if self.config != ".fortlsrc":
+                self.post_message(f"Configuration file '{self.config}' not found")
             return None
 
         # Load the first config file found
